@@ -812,6 +812,30 @@ func (p *prop) Generate(rng *core.Rand, tier string, emit func(string)) {
 	for i := 0; i < npx; i++ {
 		emit(g.pxCase())
 	}
+	// the scripted handler behind a real response recorder behind encode (templates / intercept shape)
+	nrr := 600
+	if tier == "thorough" {
+		nrr = 9000
+	} else if tier == "search" {
+		nrr = 2500
+	}
+	for i := 0; i < nrr; i++ {
+		f := strings.Fields(g.one())
+		if len(f) != 12 {
+			continue
+		}
+		mode := g.rng.Intn(3)
+		if ops, ok := parseScriptOnly(f[11]); ok {
+			f[9] = "~"
+			if fp := recorderFirstPayload(ops, mode); fp != nil {
+				f[9] = core.Hex(http.DetectContentType(fp))
+			}
+		}
+		emit(rrLine(mode, strings.Join(f, " ")))
+	}
+	for _, m := range []string{"rr 3 gzip - 0 d G ~ 0 ~ ~ ~ 1 -", "rr x gzip - 0 d G ~ 0 ~ ~ ~ 1 -", "rr 1 gzip - 0 d G ~ 0 ~ ~ ~ 1", "rr 1 gzip - 0 d G ~ 0 ~ ~ ~ 1 - -"} {
+		emit(m)
+	}
 	for _, m := range []string{"px gzip 0 ~ 5 10 10 t", "px br 0 ~ 5 10 10 t n", "px gzip 0 ~ 0 10 10 t n", "px gzip 0 ~ 5 0 10 t n", "px gzip 0 ~ 5 10 10 q n", "px gzip 0 ~ 5 10 10 t x", "px gzip x ~ 5 10 10 t n", "px gzip 0 zz 5 10 10 t n", "px gzip 0 ~ 2000 10 10 t n"} {
 		emit(m)
 	}
